@@ -337,15 +337,41 @@ fn check_arbitrary(text: &str) -> Option<(String, String)> {
 /// Every run executes in a thread of its own, so that state the reader may keep per thread is in
 /// a known (fresh) condition at the start of the run and the run's own history - the earlier
 /// inputs of the same session - is the only thing that can influence it. A replay does the same.
-fn in_fresh_thread<T: Send, F: FnOnce() -> T + Send>(f: F) -> T {
-    std::thread::scope(|s| {
-        std::thread::Builder::new()
-            .stack_size(64 << 20)
-            .spawn_scoped(s, f)
-            .expect("spawn")
-            .join()
-            .unwrap_or_else(|_| panic!("run thread panicked"))
-    })
+///
+/// The thread is also the watchdog's unit: reading a generated text takes microseconds, so a
+/// run that has not returned after WATCHDOG_SECS of wall time is reported as non-termination
+/// (C11: "the scanner and parser terminate"). The stuck thread is left behind; once a run has
+/// hung, later runs of the batch are skipped so that the check itself terminates.
+const WATCHDOG_SECS: u64 = 30;
+static HUNG: std::sync::atomic::AtomicBool = std::sync::atomic::AtomicBool::new(false);
+
+fn in_fresh_thread<T: Send + 'static, F: FnOnce() -> T + Send + 'static>(f: F) -> Option<T> {
+    let (tx, rx) = std::sync::mpsc::channel();
+    std::thread::Builder::new()
+        .stack_size(64 << 20)
+        .spawn(move || {
+            let _ = tx.send(f());
+        })
+        .expect("spawn");
+    match rx.recv_timeout(std::time::Duration::from_secs(WATCHDOG_SECS)) {
+        Ok(v) => Some(v),
+        Err(std::sync::mpsc::RecvTimeoutError::Timeout) => {
+            HUNG.store(true, std::sync::atomic::Ordering::SeqCst);
+            None
+        }
+        Err(std::sync::mpsc::RecvTimeoutError::Disconnected) => panic!("run thread panicked"),
+    }
+}
+
+fn hang_violation(run: u64, case: Value, text: &str) -> Violation {
+    Violation {
+        property: "C11".into(),
+        oracle: "watchdog".into(),
+        signature: "C11 termination reader-did-not-return".into(),
+        run,
+        case,
+        detail: format!("scanning / parsing / evaluating datum by datum did not return within {} s of wall time on {:?}", WATCHDOG_SECS, text),
+    }
 }
 
 /// earlier inputs of the same terminal session: scanned, parsed and (if possible) evaluated;
@@ -429,10 +455,21 @@ fn one_run(seed: u64, run: u64) -> RunResult {
                 res.keys.push(fnv64(format!("{}#{}", r.text, i).as_bytes()));
             }
         }
-        let outcome = in_fresh_thread(|| {
-            feed_history(&history);
-            check_wellformed(&r, chunk_seed)
-        });
+        if HUNG.load(std::sync::atomic::Ordering::SeqCst) {
+            res.kind = "skipped_after_hang";
+            return res;
+        }
+        let (h2, r2) = (history.clone(), r.clone());
+        let outcome = match in_fresh_thread(move || {
+            feed_history(&h2);
+            check_wellformed(&r2, chunk_seed)
+        }) {
+            Some(o) => o,
+            None => {
+                res.violation = Some(hang_violation(run, rendered_to_json(&r, chunk_seed, &history), &r.text));
+                return res;
+            }
+        };
         match outcome {
             Ok(None) => {
                 if run < 3 {
@@ -479,10 +516,21 @@ fn one_run(seed: u64, run: u64) -> RunResult {
                 base[..cut].to_string()
             }
         };
-        let outcome = in_fresh_thread(|| {
-            feed_history(&history);
-            check_arbitrary(&text)
-        });
+        if HUNG.load(std::sync::atomic::Ordering::SeqCst) {
+            res.kind = "skipped_after_hang";
+            return res;
+        }
+        let (h2, t2) = (history.clone(), text.clone());
+        let outcome = match in_fresh_thread(move || {
+            feed_history(&h2);
+            check_arbitrary(&t2)
+        }) {
+            Some(o) => o,
+            None => {
+                res.violation = Some(hang_violation(run, json!({"mode": "arbitrary", "text": text, "history": history}), &text));
+                return res;
+            }
+        };
         if let Some((class, detail)) = outcome {
             res.violation = Some(Violation {
                 property: "C11".into(),
@@ -548,10 +596,14 @@ pub fn replay(case: &Value) -> Result<Option<Violation>, String> {
     let text = case["text"].as_str().ok_or("text missing")?.to_string();
     let history: Vec<String> = case["history"].as_array().map(|a| a.iter().map(|h| h.as_str().unwrap_or("").to_string()).collect()).unwrap_or_default();
     if case["mode"].as_str() == Some("arbitrary") {
-        let outcome = in_fresh_thread(|| {
-            feed_history(&history);
-            check_arbitrary(&text)
-        });
+        let (h2, t2) = (history.clone(), text.clone());
+        let outcome = match in_fresh_thread(move || {
+            feed_history(&h2);
+            check_arbitrary(&t2)
+        }) {
+            Some(o) => o,
+            None => return Ok(Some(hang_violation(0, case.clone(), &text))),
+        };
         return Ok(outcome.map(|(class, detail)| Violation {
             property: "C11".into(),
             oracle: "span and progress invariants".into(),
@@ -610,10 +662,14 @@ pub fn replay(case: &Value) -> Result<Option<Violation>, String> {
         data,
     };
     let chunk_seed = case["chunk_seed"].as_u64().unwrap_or(0);
-    let outcome = in_fresh_thread(|| {
-        feed_history(&history);
-        check_wellformed(&r, chunk_seed)
-    });
+    let (h2, r2) = (history.clone(), r.clone());
+    let outcome = match in_fresh_thread(move || {
+        feed_history(&h2);
+        check_wellformed(&r2, chunk_seed)
+    }) {
+        Some(o) => o,
+        None => return Ok(Some(hang_violation(0, case.clone(), &r.text))),
+    };
     match outcome {
         Ok(None) => Ok(None),
         Ok(Some((class, detail))) => Ok(Some(Violation {
